@@ -281,6 +281,33 @@ theorem inv_detach {s : State} (hi : Inv s) (b : Nat) : Inv (s.detach b) := by
     obtain ⟨h1, h2⟩ := key d.buf ha
     rw [h2]; exact this.2 h1
 
+theorem detach_attached {s : State} {b b' : Nat} (h : (s.detach b).attached b' = true) :
+    s.attached b' = true ∧ (s.detach b).blen b' = s.blen b' := by
+  rw [attached_eq, blen?_detach] at h
+  rw [attached_eq, blen_eq, blen_eq, blen?_detach]
+  split at h
+  · simp at h
+  · rename_i hne; rw [if_neg hne]; exact ⟨h, rfl⟩
+
+/-- a buffer that is still attached after the adversary's move was attached before and has kept its length -/
+theorem applyDet_attached (det : List Nat) : ∀ (s : State) (b' : Nat), (s.applyDet det).attached b' = true →
+    s.attached b' = true ∧ (s.applyDet det).blen b' = s.blen b' := by
+  unfold State.applyDet
+  induction det with
+  | nil => intro s b' h; exact ⟨h, rfl⟩
+  | cons d ds ih =>
+    intro s b' h
+    simp only [List.foldl_cons] at h ⊢
+    obtain ⟨h1, h2⟩ := ih (s.detach d) b' h
+    obtain ⟨h3, h4⟩ := detach_attached h1
+    exact ⟨h3, h2.trans h4⟩
+
+theorem attached_of_applyDet (s : State) (det : List Nat) (b : Nat) (h : (s.applyDet det).attached b = true) :
+    s.attached b = true := (applyDet_attached det s b h).1
+
+theorem blen_applyDet_of_attached (s : State) (det : List Nat) (b : Nat) (h : (s.applyDet det).attached b = true) :
+    s.blen b ≤ (s.applyDet det).blen b := Nat.le_of_eq (applyDet_attached det s b h).2.symm
+
 theorem applyDet_views (s : State) (det : List Nat) : (s.applyDet det).views = s.views := by
   unfold State.applyDet
   induction det generalizing s with
